@@ -426,6 +426,7 @@ inline void disarm_watchdog() {
     setitimer(ITIMER_VIRTUAL, &it, nullptr);
 }
 
+static bool g_announce_request = false;
 static bool g_announce = false; // print the case index before running it (for tools without an on-report hook, e.g. TSan)
 inline void begin_case(uint64_t c) {
     g_case = c;
@@ -494,6 +495,7 @@ inline Args parse_args(int argc, char **argv) {
         else if (s == "--hashes") a.hashfile = nxt();
         else if (s == "--cpu") g_cpu_limit = atoi(nxt());
         else if (s == "--verbose") g_verbose = true;
+        else if (s == "--announce") g_announce_request = true;
         else if (s == "--opt") {
             std::string kv = nxt();
             size_t      eq = kv.find('=');
@@ -511,6 +513,7 @@ inline Args parse_args(int argc, char **argv) {
         g_verbose = true;
     }
     g_seed = a.seed;
+    if (g_announce_request) g_announce = true;
     install_handlers();
     return a;
 }
